@@ -12,11 +12,15 @@ import Sif.Spec.C17
 namespace Sif.Drv.RelayLoop
 open Sif.Relayer.Loop Sif.Spec.C17
 
+/-- `nonce@block` = a (good) bridge event; `nonce!block` = an event the translator refuses (recipient that does not
+    decode, …): emitted by the node, but not among the events the property demands — dropped here -/
 def parsePlace (s : String) : Option (List (Nat × Nat)) :=
   if s = "-" then some [] else
-  (s.splitOn ",").mapM (fun x => match x.splitOn "@" with
-    | [a, b] => do let a ← a.toNat?; let b ← b.toNat?; some (a, b)
-    | _ => none)
+  ((s.splitOn ",").mapM (fun (x : String) => match x.splitOn "@" with
+    | [a, b] => do let a ← a.toNat?; let b ← b.toNat?; some (some (a, b))
+    | _ => match x.splitOn "!" with
+      | [a, b] => do let _ ← a.toNat?; let _ ← b.toNat?; some none
+      | _ => none)).map (fun (l : List (Option (Nat × Nat))) => l.filterMap id)
 
 def parseCrash : String → Option Crash
   | "c0" => some .beforeQuery | "c1" => some .afterQuery | "c2" => some .beforeSubmit
